@@ -1,6 +1,6 @@
 /-
 Helper lemmas for `C03.findTurns_eq_numpy`: the numpy formulation of `find_turns`
-(`findTurnsNumpy`) computes the declarative reversals.
+(`findTurnsNumpyProd`) computes the declarative reversals.
 -/
 import Proofs.Lemmas.Common
 import Proofs.Lemmas.Reversals
@@ -340,8 +340,8 @@ def platN (d : List Int) : List Nat :=
       let starts := if cutStarts then starts0.dropLast else starts0
       ((starts.zip ends).filter fun (st, en) => dA[st]! * dA[en+1]! < 0).map (·.1)
 
-theorem findTurnsNumpy_unfold (s : List Int) :
-    findTurnsNumpy s =
+theorem findTurnsNumpyProd_unfold (s : List Int) :
+    findTurnsNumpyProd s =
       ((List.range ((diffs s).length - 1)).filter fun i =>
         ((List.range ((diffs s).length - 1)).map fun i =>
             decide ((diffs s).toArray[i]! * (diffs s).toArray[i+1]! < 0))[i]! ||
@@ -522,10 +522,24 @@ theorem scan_revList (s : List Int) : ∀ pre : List Int,
       congr 1
       split <;> simp
 
-/-- **`findTurnsNumpy` computes the list-level reversals.** -/
-theorem findTurnsNumpy_eq_revList (s : List Int) : findTurnsNumpy s = revList 1 s := by
-  rw [findTurnsNumpy_unfold, numpy_select]
+/-- **`findTurnsNumpyProd` computes the list-level reversals.** -/
+theorem findTurnsNumpyProd_eq_revList (s : List Int) : findTurnsNumpyProd s = revList 1 s := by
+  rw [findTurnsNumpyProd_unfold, numpy_select]
   have := scan_revList s []
   simpa using this
+
+/-- The sign of a product: multiplying the signs decides the same thing as multiplying the numbers (over `Int`). -/
+theorem sign_mul_sign_neg (a b : Int) : (a.sign * b.sign < 0) = (a * b < 0) := by
+  rw [← Int.sign_mul]
+  exact propext Int.sign_neg_iff
+
+/-- The transcription of the code after repair c6242ee (signs multiplied) selects exactly what the
+product formulation selects. -/
+theorem findTurnsNumpy_eq_prod (s : List Int) : findTurnsNumpy s = findTurnsNumpyProd s := by
+  simp only [findTurnsNumpy, findTurnsNumpyProd, sign_mul_sign_neg]
+
+/-- **`findTurnsNumpy` computes the list-level reversals.** -/
+theorem findTurnsNumpy_eq_revList (s : List Int) : findTurnsNumpy s = revList 1 s := by
+  rw [findTurnsNumpy_eq_prod, findTurnsNumpyProd_eq_revList]
 
 end PylifeVerif.Numpy
